@@ -338,6 +338,7 @@ int main(int argc, char **argv)
     vh_pre_call_hook = pre_hook;
     vh_post_call_hook = post_hook;
     ro_guard = !strcmp(prop, "C18");
+    vh_ro_inert_cleanup = !strcmp(prop, "C15");
     noaccess_page = mmap(NULL, 8192, PROT_NONE, MAP_PRIVATE | MAP_ANONYMOUS, -1, 0);
     for (i = 0; i < CIPH_N; ++i) { maxbe[i] = vh_max_backend(&vh_ciphers[i]); if (maxbe[i] < 0) { printf("{\"type\":\"inconclusive\",\"reason\":\"cannot identify back end\"}\n"); return 2; } }
     {   /* positive controls for the monitor itself: a leak, a double free and a dirty free must be seen */
